@@ -106,11 +106,18 @@ func (c *Checker) storeInCache(hashesToRequest, respHashes []hostnameHash) {
 	}
 
 	for _, hash := range hashesToRequest {
-		val := c.cache.Get(hash[:prefixLen])
-		if val == nil {
-			var pref prefix
-			copy(pref[:], hash[:])
+		var pref prefix
+		copy(pref[:], hash[:])
 
+		// Store an empty entry only if the response has no hashes with this
+		// prefix.  The absence of the prefix in the cache alone doesn't mean
+		// that: with a small cache, storing the received hashes may have failed
+		// or the entry may have been evicted already, and an empty entry would
+		// then turn a blocked host into a non-blocked one.
+		_, received := hashToStore[pref]
+
+		val := c.cache.Get(hash[:prefixLen])
+		if val == nil && !received {
 			c.setCache(pref, nil)
 		}
 	}
